@@ -94,6 +94,7 @@ def record(name: str, s: str, dialect: str = "en", mode: str = "collect", nid0: 
     matcher = CountingMatcher(dialect)
     rec = dict(name=name, mode=mode, dialect=dialect, nid0=nid0, lines=[cp(l) for l in P.split_lines(s)], uri=cp(uri))
     pk = []
+    pk_again = None
     exc = None
     try:
         d = parser.parse(s, matcher)
@@ -103,7 +104,14 @@ def record(name: str, s: str, dialect: str = "en", mode: str = "collect", nid0: 
             d2 = dict(d)
             d2["uri"] = uri
             try:
-                pk = [P.pickle(p) for p in Compiler(idg).compile(d2)]
+                comp = Compiler(idg)
+                keep = idg._id_counter
+                pk = [P.pickle(p) for p in comp.compile(d2)]
+                # the same Compiler used again on the same document (ids rewound): the result must not depend on the earlier use
+                after = idg._id_counter
+                idg._id_counter = keep
+                pk_again = [P.pickle(p) for p in comp.compile(d2)]
+                idg._id_counter = after
             except Exception as e:  # noqa: BLE001 -- any exception from compile is itself an observation (C01)
                 pk = []
                 exc = "compile:" + type(e).__name__ + ":" + str(e)[:200]
@@ -132,7 +140,7 @@ def record(name: str, s: str, dialect: str = "en", mode: str = "collect", nid0: 
     ev = b.events
     if ev and ev[0] and ev[0][0] == ["S", "GherkinDocument"]:
         ev = [ev[0][1:]] + ev[1:]
-    rec.update(ok=ok, toks=b.toks, events=ev, ast=ast, errs=errs, pickles=pk, exc=exc or "", compiled=int(bool(compile_)),
+    rec.update(ok=ok, toks=b.toks, events=ev, ast=ast, errs=errs, pickles=pk, exc=exc or "", compiled=int(bool(compile_)), pickles_again=pk if pk_again is None else pk_again,
                nid_after=idg._id_counter, ops=matcher.ops,
                listing=token_listing(s, dialect) if listing else [])
     return rec
